@@ -134,9 +134,9 @@ type fctx struct {
 	regNames    []string
 	globals     map[string]int
 	globalNames map[string]bool
-	err      error
-	depth    int
-	entry    string
+	err         error
+	depth       int
+	entry       string
 }
 
 func (c *fctx) fail(n ast.Node, format string, a ...any) {
